@@ -169,6 +169,26 @@ impl<'a> Gen<'a> {
                 head: vec![Action::Union(Pat::Var(0), Pat::App(f, vec![Pat::App(n, vec![Pat::Add(Box::new(Pat::Var(1)), Box::new(Pat::Int(1)))])]))],
             });
         }
+        if self.bias == Bias::C03 {
+            // a wide head: one iteration stages writes to as many distinct tables as the signature
+            // has (the database-level parallel merge only runs for >= 4 tables)
+            let mut head = vec![Action::Expr(Pat::App(g, vec![Pat::Var(0)]))];
+            if let Some(&rl) = self.rels.first() {
+                head.push(Action::Set(rl, vec![Pat::Var(1)], Pat::Int(0)));
+            }
+            if let Some(&gf) = self.funcs.first() {
+                head.push(Action::Set(gf, vec![Pat::Var(1)], Pat::Int(1)));
+            }
+            if let Some(&h) = self.binary.first() {
+                head.push(Action::Expr(Pat::App(h, vec![Pat::Var(1), Pat::Var(0)])));
+            }
+            if let Some(n) = self.num {
+                head.push(Action::Expr(Pat::App(n, vec![Pat::Int(7)])));
+            }
+            head.push(Action::Expr(Pat::App(k, vec![])));
+            choices.push(Rule { body: vec![Fact::Eq(0, Pat::App(f, vec![Pat::Var(1)]))], head: head.clone() });
+            choices.push(Rule { body: vec![Fact::Eq(0, Pat::App(f, vec![Pat::Var(1)]))], head });
+        }
         if self.bias == Bias::C13 {
             // subsuming rewrite
             choices.push(Rule {
